@@ -99,10 +99,12 @@ class NonSeekableSource:
             w.faults.record(f, exc, w.sim.stamp(), t=self.tidx)
             raise exc
         rem = len(self._data) - self._pos
-        if n is None or n < 0:
+        read_all = n is None or n < 0
+        if read_all:
             n = rem
         n = min(n, rem)
-        if self._short and n > 1:
+        # read() without a size reads to EOF; only sized reads may be short
+        if self._short and n > 1 and not read_all:
             k = w.sim.choose(3, 'srcshort')
             if k == 1:
                 n = max(1, n // 2)
@@ -278,10 +280,14 @@ def make_subscriber_cls():
             info = {'done': future.done(),
                     'event_set': coord._done_event.is_set(),
                     'status': coord.status,
+                    'exception': coord._exception,
                     'open_requests': w.open_requests_of(self.tidx),
                     'fs_mut': w.fs.mutations}
             t['callbacks'].append((w.sim.stamp(), 'done', self.sidx,
                                    w.sim.current.tid, None, info))
+            if t.get('natural') is None:
+                # the library's own verdict, before any user set_exception()
+                t['natural'] = (info['status'], info['exception'])
             self._reenter('done', future)
             f = w.faults.hit('cb', t=self.tidx, kind='done', sub=self.sidx)
             if f is not None:
